@@ -168,3 +168,321 @@ class inner_join_index:
     def requires(self, other, left_on, right_on):
         return S.rect(self) and S.rect(other) and S.truthful(right_on) and S.truthful(left_on) and \
             len(right_on._underlying) == other._length and len(left_on._underlying) == self._length
+
+
+# ------------------------------------------------------------------ inner_join probe / emit loops
+from contracts.specs import llen, lat, smem  # noqa: E402
+
+
+def _emitted_rows_ok(upto, left_keys, left_cols, right_cols, right_index, result_data, start):
+    """Output rows of every left row l < upto: the contiguous block of positions start[l] <= q <
+    start[l] + len(bucket of l's key); position q holds l's cells and the cells of right row
+    bucket[q - start[l]].  (Quantified over the output position q so that no arithmetic occurs in an
+    index the solver has to match on.)"""
+    d = right_index
+    nl = len(left_cols)
+    return (
+        sel(start, 0) == 0
+        and forall('i', lambda l: implies(0 <= l < upto, sel(start, l + 1) == sel(start, l) + blen(d, _row_key(left_keys, l))))
+        # every earlier block ends at or before the frontier (stated, not derived: the solver does no
+        # induction over l)
+        and forall('i', lambda l: implies(0 <= l < upto, 0 <= sel(start, l) and sel(start, l) + blen(d, _row_key(left_keys, l)) <= sel(start, upto)))
+        and forall('ii', lambda l, q: implies(
+            0 <= l < upto and sel(start, l) <= q < sel(start, l) + blen(d, _row_key(left_keys, l)),
+            all(S.same(lat(result_data[c], q), S.at(left_cols[c]._underlying, l)) for c in range(len(left_cols)))
+            and all(S.same(lat(result_data[nl + c], q), S.at(right_cols[c]._underlying, bat(d, _row_key(left_keys, l), q - sel(start, l))))
+                    for c in range(len(right_cols)))))
+    )
+
+
+def ij_probe_ghost_init():
+    return {'start': S.ghost_zero_int(), 'seenby': S.ghost_zero_key()}
+
+
+def ij_probe_ghost_step(k, result_data, start, left_keys, seenby, check_left_unique):
+    sb = seenby
+    if check_left_unique:
+        sb = upd(seenby, _row_key(left_keys, k), k)
+    return {'start': upd(start, k + 1, llen(result_data[0])), 'seenby': sb}
+
+
+@loop_invariant(IJ, 'for left_idx in range(left_nrows)', havoc={'result_data': 'list_of_symlist', 'left_keys_seen': 'symset'},
+                ghost={'start': 'intarr', 'seenby': 'keyintarr'}, ghost_init=ij_probe_ghost_init, ghost_step=ij_probe_ghost_step)
+def ij_probe_inv(k, left_keys, left_cols, right_cols, right_index, result_data, start, check_left_unique, seenby,
+                 right_keys, rpos, right_nrows, left_keys_seen=None):
+    """After k left rows: the buffers hold exactly the pairs (l, r), l < k, key(l) == key(r), in
+    left-major / right-ascending order (contiguous blocks), every buffer has the same length;
+    the seen-set is exactly the set of keys of the processed left rows."""
+    return (
+        all(llen(col) == sel(start, k) for col in result_data)
+        and sel(start, k) >= 0
+        and _emitted_rows_ok(k, left_keys, left_cols, right_cols, right_index, result_data, start)
+        and (left_keys_seen is None or (
+            forall('i', lambda l: implies(0 <= l < k, smem(left_keys_seen, _row_key(left_keys, l))))
+            and forall('k', lambda q: implies(smem(left_keys_seen, q), 0 <= sel(seenby, q) < k and _row_key(left_keys, sel(seenby, q)) == q))))
+    )
+
+
+def ij_index_facts(right_keys, right_index, rpos, n):
+    """The (loop-1) facts about the finished index, carried through loop 2 (the index is not modified)."""
+    d = right_index
+    return (
+        forall('k', lambda q: blen(d, q) >= 0)
+        and forall('ki', lambda q, p: implies(0 <= p < blen(d, q), 0 <= bat(d, q, p) < n and _row_key(right_keys, bat(d, q, p)) == q))
+        and forall('kii', lambda q, p, r: implies(0 <= p < r < blen(d, q), bat(d, q, p) < bat(d, q, r)))
+        and forall('i', lambda e: implies(0 <= e < n, 0 <= sel(rpos, e) < blen(d, _row_key(right_keys, e))
+                                           and bat(d, _row_key(right_keys, e), sel(rpos, e)) == e))
+    )
+
+
+@loop_invariant(IJ, 'for right_idx in matches', havoc={'result_data': 'list_of_symlist'})
+def ij_emit_inv(k, left_idx, matches, left_keys, left_cols, right_cols, right_index, result_data, start,
+                right_keys, rpos, right_nrows):
+    """After k entries of the current bucket: earlier left rows as before, the first k pairs of
+    the current left row appended."""
+    nl = len(left_cols)
+    return (
+        all(llen(col) == sel(start, left_idx) + k for col in result_data)
+        and _emitted_rows_ok(left_idx, left_keys, left_cols, right_cols, right_index, result_data, start)
+        and forall('i', lambda q: implies(
+            sel(start, left_idx) <= q < sel(start, left_idx) + k,
+            all(S.same(lat(result_data[c], q), S.at(left_cols[c]._underlying, left_idx)) for c in range(len(left_cols)))
+            and all(S.same(lat(result_data[nl + c], q), S.at(right_cols[c]._underlying, S.at(matches, q - sel(start, left_idx))))
+                    for c in range(len(right_cols)))))
+    )
+
+
+class _ProbeBase:
+    """C09 (probe / emit loops, one key column and one payload column per side, any row counts, any
+    keys): the column buffers hold exactly one row per key-equal pair, left-major then
+    right-ascending, with the paired rows' cells (invariants `ij_probe_inv`, `ij_emit_inv`);
+    C11: the left seen-set is exact, so the left-uniqueness raise happens iff a left key repeats.
+    The four variants enumerate the valid `expect` values."""
+    params = {'self': 'table1', 'other': 'table1', 'left_on': 'dvector', 'right_on': 'dvector', 'expect': 'str'}
+    from serif.errors import SerifTypeError as _T, SerifKeyError as _K
+    may_raise = [SerifValueError, _T, _K]
+    stop_after = ('ij_probe_inv',)
+    assume_loops = ('ij_index_inv',)
+    quant_prune = False
+
+
+def _probe_pre(self, other, left_on, right_on):
+    return S.rect(self) and S.rect(other) and S.truthful(right_on) and S.truthful(left_on) and \
+        all(S.truthful(c) for c in self._underlying) and all(S.truthful(c) for c in other._underlying) and \
+        len(right_on._underlying) == other._length and len(left_on._underlying) == self._length
+
+
+@contract(IJ, props=['C09', 'C11'], variant='probe-many_to_many')
+class inner_join_probe_mm(_ProbeBase):
+    __doc__ = _ProbeBase.__doc__
+
+    def requires(self, other, left_on, right_on, expect):
+        return _probe_pre(self, other, left_on, right_on) and expect == 'many_to_many'
+
+
+@contract(IJ, props=['C09', 'C11'], variant='probe-one_to_one')
+class inner_join_probe_11(_ProbeBase):
+    __doc__ = _ProbeBase.__doc__
+
+    def requires(self, other, left_on, right_on, expect):
+        return _probe_pre(self, other, left_on, right_on) and expect == 'one_to_one'
+
+
+@contract(IJ, props=['C09', 'C11'], variant='probe-many_to_one')
+class inner_join_probe_m1(_ProbeBase):
+    __doc__ = _ProbeBase.__doc__
+    tier = 'thorough'
+
+    def requires(self, other, left_on, right_on, expect):
+        return _probe_pre(self, other, left_on, right_on) and expect == 'many_to_one'
+
+
+@contract(IJ, props=['C09', 'C11'], variant='probe-one_to_many')
+class inner_join_probe_1m(_ProbeBase):
+    __doc__ = _ProbeBase.__doc__
+    tier = 'thorough'
+
+    def requires(self, other, left_on, right_on, expect):
+        return _probe_pre(self, other, left_on, right_on) and expect == 'one_to_many'
+
+
+# ------------------------------------------------------------------ inner_join: result assembly
+@exit_assert(IJ)
+def ij_exit(result, result_data=None, start=None, left_nrows=None, left_cols=None, right_cols=None):
+    """At every return after the loops: the returned table has no columns when no pair matched,
+    otherwise one column per input column, in order (left columns then right columns), column c
+    holding exactly the buffer c (same length, same cells) under the input column's name."""
+    if start is None or result_data is None:
+        return True
+    nout = sel(start, left_nrows)
+    cols = list(left_cols) + list(right_cols)
+    if nout == 0:
+        return len(result._underlying) == 0
+    return (
+        len(result._underlying) == len(cols)
+        and all(len(result._underlying[c]._underlying) == nout for c in range(len(cols)))
+        and all(result._underlying[c]._name == cols[c]._name for c in range(len(cols)))
+        and forall('i', lambda q: implies(
+            0 <= q < nout,
+            all(S.same(S.at(result._underlying[c]._underlying, q), lat(result_data[c], q)) for c in range(len(cols)))))
+    )
+
+
+@contract(IJ, props=['C09', 'C18'], variant='wrap')
+class inner_join_wrap(_ProbeBase):
+    """C09 (result assembly): with both loop invariants at their exits, the returned table is the
+    buffers wrapped column by column - so its rows are exactly the key-equal pairs, left-major and
+    right-ascending, under the input columns' names (exit assertion `ij_exit`)."""
+    stop_after = ()
+    assume_loops = ('ij_index_inv', 'ij_probe_inv')
+
+    def requires(self, other, left_on, right_on, expect):
+        return _probe_pre(self, other, left_on, right_on) and expect == 'many_to_many'
+
+
+# =================================================================== Table.join (left join), C10 / C11
+LJ = 'serif.table.Table.join'
+represent(LJ, right_index='symdict', duplicates='symdict', left_keys_seen='symset:key', result_data='list_of_symlist')
+
+
+@loop_invariant(LJ, 'for row_idx in range(right_nrows)', havoc={'right_index': 'symdict', 'duplicates': 'symdict'},
+                ghost={'rpos': 'intarr'}, ghost_init=ij_ghost_init, ghost_step=ij_index_ghost_step)
+def lj_index_inv(k, right_keys, right_index, check_right_unique, rpos, duplicates=None):
+    """Same index invariant as inner_join (the loop differs only in recording a duplicate key once)."""
+    return ij_index_inv(k, right_keys, right_index, check_right_unique, rpos, duplicates)
+
+
+@contract(LJ, props=['C10', 'C11'], variant='index-build')
+class join_index(inner_join_index):
+    """C10/C11 (left join, index build): as for inner_join - every key maps to the ascending list of
+    the right rows carrying it; the duplicate record is exact."""
+    stop_after = ('lj_index_inv',)
+
+
+def _bsz(d, key):
+    """rows a left row contributes to a left join: one per match, or one unmatched row"""
+    return blen(d, key) if blen(d, key) > 0 else 1
+
+
+def _lj_rows_ok(upto, left_keys, left_cols, right_cols, right_index, result_data, start):
+    """Output rows of every left row l < upto in a LEFT join: the contiguous block start[l] <= q <
+    start[l] + max(1, len(bucket)); position q holds l's cells and either the cells of right row
+    bucket[q - start[l]] or, for an unmatched left row, None in every right column."""
+    d = right_index
+    nl = len(left_cols)
+    return (
+        sel(start, 0) == 0
+        and forall('i', lambda l: implies(0 <= l < upto, sel(start, l + 1) == sel(start, l) + _bsz(d, _row_key(left_keys, l))))
+        and forall('i', lambda l: implies(0 <= l < upto, 0 <= sel(start, l) and sel(start, l) + _bsz(d, _row_key(left_keys, l)) <= sel(start, upto)))
+        and forall('ii', lambda l, q: implies(
+            0 <= l < upto and sel(start, l) <= q < sel(start, l) + _bsz(d, _row_key(left_keys, l)),
+            all(S.same(lat(result_data[c], q), S.at(left_cols[c]._underlying, l)) for c in range(len(left_cols)))
+            and all(implies(blen(d, _row_key(left_keys, l)) > 0,
+                            S.same(lat(result_data[nl + c], q), S.at(right_cols[c]._underlying, bat(d, _row_key(left_keys, l), q - sel(start, l)))))
+                    and implies(blen(d, _row_key(left_keys, l)) <= 0, lat(result_data[nl + c], q) is None)
+                    for c in range(len(right_cols)))))
+    )
+
+
+@loop_invariant(LJ, 'for left_idx in range(left_nrows)', havoc={'result_data': 'list_of_symlist', 'left_keys_seen': 'symset'},
+                ghost={'start': 'intarr', 'seenby': 'keyintarr'}, ghost_init=ij_probe_ghost_init, ghost_step=ij_probe_ghost_step)
+def lj_probe_inv(k, left_keys, left_cols, right_cols, right_index, result_data, start, check_left_unique, seenby,
+                 left_keys_seen=None):
+    """After k left rows of a left join: every processed left row has its block (matches in
+    ascending right order, or one None-padded row); the seen-set is exact."""
+    return (
+        all(llen(col) == sel(start, k) for col in result_data)
+        and sel(start, k) >= 0
+        and _lj_rows_ok(k, left_keys, left_cols, right_cols, right_index, result_data, start)
+        and (left_keys_seen is None or (
+            forall('i', lambda l: implies(0 <= l < k, smem(left_keys_seen, _row_key(left_keys, l))))
+            and forall('k', lambda q: implies(smem(left_keys_seen, q), 0 <= sel(seenby, q) < k and _row_key(left_keys, sel(seenby, q)) == q))))
+    )
+
+
+@loop_invariant(LJ, 'for right_idx in matches', havoc={'result_data': 'list_of_symlist'})
+def lj_emit_inv(k, left_idx, matches, left_keys, left_cols, right_cols, right_index, result_data, start):
+    nl = len(left_cols)
+    return (
+        all(llen(col) == sel(start, left_idx) + k for col in result_data)
+        and _lj_rows_ok(left_idx, left_keys, left_cols, right_cols, right_index, result_data, start)
+        and forall('i', lambda q: implies(
+            sel(start, left_idx) <= q < sel(start, left_idx) + k,
+            all(S.same(lat(result_data[c], q), S.at(left_cols[c]._underlying, left_idx)) for c in range(len(left_cols)))
+            and all(S.same(lat(result_data[nl + c], q), S.at(right_cols[c]._underlying, S.at(matches, q - sel(start, left_idx))))
+                    for c in range(len(right_cols)))))
+    )
+
+
+class _LJProbeBase(_ProbeBase):
+    """C10 (left join, probe / emit loops, one key column and one payload column per side, any row
+    counts, any keys): every left row appears - once per key-equal right row in ascending right
+    order, or once padded with None when nothing matches - in left order (invariants `lj_probe_inv`,
+    `lj_emit_inv`); C11: the left seen-set is exact."""
+    stop_after = ('lj_probe_inv',)
+    assume_loops = ('lj_index_inv',)
+
+
+@contract(LJ, props=['C10', 'C11'], variant='probe-many_to_many')
+class join_probe_mm(_LJProbeBase):
+    __doc__ = _LJProbeBase.__doc__
+
+    def requires(self, other, left_on, right_on, expect):
+        return _probe_pre(self, other, left_on, right_on) and expect == 'many_to_many'
+
+
+@contract(LJ, props=['C10', 'C11'], variant='probe-one_to_one')
+class join_probe_11(_LJProbeBase):
+    __doc__ = _LJProbeBase.__doc__
+
+    def requires(self, other, left_on, right_on, expect):
+        return _probe_pre(self, other, left_on, right_on) and expect == 'one_to_one'
+
+
+@contract(LJ, props=['C10', 'C11'], variant='probe-many_to_one')
+class join_probe_m1(_LJProbeBase):
+    __doc__ = _LJProbeBase.__doc__
+    tier = 'thorough'
+
+    def requires(self, other, left_on, right_on, expect):
+        return _probe_pre(self, other, left_on, right_on) and expect == 'many_to_one'
+
+
+@contract(LJ, props=['C10', 'C11'], variant='probe-one_to_many')
+class join_probe_1m(_LJProbeBase):
+    __doc__ = _LJProbeBase.__doc__
+    tier = 'thorough'
+
+    def requires(self, other, left_on, right_on, expect):
+        return _probe_pre(self, other, left_on, right_on) and expect == 'one_to_many'
+
+
+@exit_assert(LJ)
+def lj_exit(result, result_data=None, start=None, left_nrows=None, left_cols=None, right_cols=None):
+    """At every return after the loops of the left join: no columns for an empty left table,
+    otherwise the buffers wrapped column by column under the input columns' names."""
+    if start is None or result_data is None:
+        return True
+    nout = sel(start, left_nrows)
+    cols = list(left_cols) + list(right_cols)
+    if left_nrows == 0:
+        return len(result._underlying) == 0
+    return (
+        len(result._underlying) == len(cols)
+        and all(len(result._underlying[c]._underlying) == nout for c in range(len(cols)))
+        and all(result._underlying[c]._name == cols[c]._name for c in range(len(cols)))
+        and forall('i', lambda q: implies(
+            0 <= q < nout,
+            all(S.same(S.at(result._underlying[c]._underlying, q), lat(result_data[c], q)) for c in range(len(cols)))))
+    )
+
+
+@contract(LJ, props=['C10', 'C18'], variant='wrap')
+class join_wrap(_LJProbeBase):
+    """C10 (left join, result assembly): the returned table is the buffers wrapped column by
+    column under the input columns' names (exit assertion `lj_exit`)."""
+    stop_after = ()
+    assume_loops = ('lj_index_inv', 'lj_probe_inv')
+
+    def requires(self, other, left_on, right_on, expect):
+        return _probe_pre(self, other, left_on, right_on) and expect == 'many_to_many'
